@@ -125,6 +125,9 @@ class BuildLock:
         self.f.close()
 
 
+_KEEP_GOLDEN = False
+
+
 def sync_and_generate(gens: list[str] | None = None) -> dict[str, str]:
     """rsync coq/ to build/coq/, regenerate Gen/*.v from the current /repo tree.
 
@@ -141,14 +144,22 @@ def sync_and_generate(gens: list[str] | None = None) -> dict[str, str]:
         raise RuntimeError("rsync failed: " + err)
     (COQ_BUILD / "Gen").mkdir(exist_ok=True)
     for name, fn in genmod.GENERATORS.items():
+        marker = COQ_BUILD / "Gen" / f".golden_{name}"
         if gens is not None and name not in gens:
-            # still make sure a file exists so that _CoqProject is complete
-            if not (COQ_BUILD / "Gen" / f"{name}.v").exists():
+            # still make sure a file exists so that _CoqProject is complete; a golden text left behind by an
+            # earlier fallback (prove_with_fallback) is never reused silently by another check
+            if not (COQ_BUILD / "Gen" / f"{name}.v").exists() or (marker.exists() and not _KEEP_GOLDEN):
+                had_golden = marker.exists()
+                marker.unlink(missing_ok=True)
                 try:
                     _write_if_changed(COQ_BUILD / "Gen" / f"{name}.v", fn())
                 except Exception as e:  # noqa
-                    pass
+                    if had_golden:
+                        _write_if_changed(COQ_BUILD / "Gen" / f"{name}.v",
+                                          f"(* translator failed closed: {str(e)[:200].replace('*)', '* )')} *)\n"
+                                          "Definition translator_failed : True := tt tt.\n")
             continue
+        marker.unlink(missing_ok=True)
         try:
             text = fn()
         except Exception as e:  # fail closed
@@ -263,6 +274,86 @@ def prove(ctx: Ctx, deps: list[str], prop_file: str | None = None, gens: list[st
         ctx.discharged += len(theorems)
         ctx.extra.setdefault("theorems", []).extend(theorems)
     return True
+
+
+GOLDEN_DIR = ROOT / "coq_golden"
+
+
+def golden_text(name: str) -> str | None:
+    """Golden copy of a generated file: the text the translator produced from the tree on which the proofs were
+    developed (written by harness/update_golden.py, committed, never written by a check)."""
+    p = GOLDEN_DIR / f"{name}.v"
+    if p.exists():
+        return p.read_text()
+    try:  # the three generators that carry their golden text inside the module
+        import gen  # noqa: F401
+        if name == "Gen_shapes":
+            import gen_shapes
+            return gen_shapes.GOLDEN
+        if name == "Gen_refine":
+            import gen_refine
+            return gen_refine.GOLDEN
+        if name == "Gen_refine_R":
+            import gen_refine
+            return gen_refine.GOLDEN_R
+        if name == "Gen_codec":
+            import gen_codec
+            return gen_codec.golden()
+    except Exception:  # noqa
+        return None
+    return None
+
+
+def prove_with_fallback(ctx: Ctx, deps: list[str], gens: list[str], prop_file: str | None = None,
+                        timeout: int = 1500) -> tuple[bool, bool]:
+    """-> (every obligation checked, over the freshly generated text?).
+
+    First the theorems are checked over the model regenerated from the current source (tie = translator).  When the
+    translator does not recognise the current source (fails closed) or the fresh text no longer supports the proof
+    scripts, the theorems are re-checked over the GOLDEN model instead; the golden model is then a hand-kept model
+    in the sense of the brief and the tie to the code is the property's correspondence run (DESIGN.md 2.2), which
+    the caller must execute at full strength and which must agree: ctx.extra["translator_fell_back"] is set and the
+    caller has to treat every correspondence disagreement as a violation with that input as the replay."""
+    nb, ob, dc = len(ctx.broken), ctx.obligations, ctx.discharged
+    nn = len(ctx.notes)
+    ok = prove(ctx, deps, prop_file=prop_file, gens=gens, timeout=timeout)
+    if ok:
+        ctx.tie.append("translator (" + ", ".join(gens) + " regenerated from the current source; proofs over the fresh text)")
+        diff = []
+        for g in gens:
+            gt = golden_text(g)
+            f = COQ_BUILD / "Gen" / f"{g}.v"
+            if gt is not None and f.exists() and f.read_text() != gt:
+                diff.append(g)
+        if diff:
+            ctx.notes.append(", ".join(diff) + " differ(s) textually from the golden copy; the proofs hold over the fresh text")
+        return True, True
+    first = ctx.broken[nb:]
+    if any(b.startswith("forbidden construct") or "assumptions outside" in b for b in first):
+        return False, True
+    texts = {g: golden_text(g) for g in gens}
+    if any(t is None for t in texts.values()):
+        return False, True
+    del ctx.broken[nb:]
+    ctx.obligations, ctx.discharged = ob, dc
+    why = [n for n in ctx.notes[nn:] if n.startswith("translator failed closed")]
+    ctx.notes.append("fresh generated text does not support the proofs -> golden model (" + ", ".join(gens) + "): "
+                     + " | ".join(why + first)[:700])
+    ctx.extra["fresh_text_failure"] = (why + first)[:4]
+    global _KEEP_GOLDEN
+    with BuildLock():
+        for g, t in texts.items():
+            _write_if_changed(COQ_BUILD / "Gen" / f"{g}.v", t)
+            (COQ_BUILD / "Gen" / f".golden_{g}").write_text("golden text in use\n")
+    _KEEP_GOLDEN = True
+    try:
+        ok2 = prove(ctx, deps, prop_file=prop_file, gens=[], timeout=timeout)
+    finally:
+        _KEEP_GOLDEN = False
+    ctx.tie.append("correspondence (the translator did not carry the current source; theorems re-checked over the golden "
+                   "model, which the correspondence run ties to the implementation)")
+    ctx.extra["translator_fell_back"] = True
+    return ok2, False
 
 
 # ---------------------------------------------------------------------------------------
